@@ -37,6 +37,9 @@ CHANGE = {
     "C17": "ScratchDB `__delitem__` (buffered delete)",
     "C17-r2": "ScratchDB `__getitem__` memoises read-through values over delete tombstones",
     "C18": "`set` no longer validates the value up front",
+    "C03-r3": "`_get_proof` leaves out a non-root node whose rlp is <= 32 bytes (the storage rule embeds only < 32: a 32-byte node is referenced by hash)",
+    "C09-r3": "simulated node trimmed with `path[-num_remaining:]` (keeps the whole path when nothing remains)",
+    "C11-r3": "explore() checks nesting only against the shortest sub-segment length (misses nesting between two longer ones)",
     "C18-r2": "`if not ref_count` accepts an empty reference count on a non-pruning trie",
 }
 
